@@ -16,6 +16,7 @@ import (
 
 	"github.com/icon-project/goloop/common"
 	"github.com/icon-project/goloop/common/codec"
+	"github.com/icon-project/goloop/module"
 	"github.com/icon-project/goloop/server/jsonrpc"
 
 	"verifharness/tlaio"
@@ -35,6 +36,13 @@ type rec struct {
 	Type     int         `json:"type"`
 	Len      int         `json:"len"`
 	Off      int         `json:"off"`
+	Take     int         `json:"take"`
+	With     string      `json:"with"`
+	Nil      bool        `json:"nil"`
+	Stream   []struct {
+		T string `json:"t"`
+		V int    `json:"v"`
+	} `json:"stream"`
 }
 
 func pick(rnd *rand.Rand, variant int, s string) byte {
@@ -107,7 +115,7 @@ func runBehaviour(steps []rec, variant int, rnd *rand.Rand) (string, *fail) {
 	var cur *common.Address
 	input := ""
 	first := steps[0]
-	if first.Op == "frombytes" {
+	if first.Op == "frombytes" || first.Op == "new" {
 		bs = make([]byte, len(first.Bytes))
 		for i, p := range first.Bytes {
 			bs[i] = nibble(p[0], variant, rnd)<<4 | nibble(p[1], variant, rnd)
@@ -238,6 +246,80 @@ func runBehaviour(steps []rec, variant int, rnd *rand.Rand) (string, *fail) {
 				id = append([]byte{}, want...)
 				cur = &a
 			}
+		case "new":
+			var a *common.Address
+			if r.Contract {
+				a = common.NewContractAddress(bs)
+			} else {
+				a = common.NewAccountAddress(bs)
+			}
+			want := append(make([]byte, r.Pad), bs[:r.Take]...)
+			b := common.NewAddressWithTypeAndID(r.Contract, bs)
+			if a.IsContract() != r.Contract || !bytes.Equal(a.ID(), want) || *a != *b {
+				return input, &fail{true, "new", fmt.Sprintf("New%sAddress(%x) = %s (contract=%v), spec says contract=%v id=%x", map[bool]string{true: "Contract", false: "Account"}[r.Contract], bs, a.String(), a.IsContract(), r.Contract, want)}
+			}
+			id = want
+			cur = a
+		case "iscontract":
+			if cur.IsContract() != r.Contract {
+				return input, &fail{true, "iscontract", fmt.Sprintf("%s.IsContract() = %v", cur.String(), cur.IsContract())}
+			}
+		case "equal":
+			var other *common.Address
+			switch r.With {
+			case "eq_same":
+				other = common.MustNewAddress(append([]byte{}, cur.Bytes()...))
+			case "eq_type":
+				other = common.NewAddressWithTypeAndID(!cur.IsContract(), cur.ID())
+			case "eq_id":
+				oid := append([]byte{}, cur.ID()...)
+				oid[len(oid)-1] ^= 0x01
+				other = common.NewAddressWithTypeAndID(cur.IsContract(), oid)
+			}
+			var self *common.Address = cur // nil in the N family
+			got := self.Equal(other)
+			var mo module.Address
+			if other != nil {
+				mo = other
+			}
+			var ms module.Address
+			if self != nil {
+				ms = self
+			}
+			if got != r.Ok || other.Equal(self) != r.Ok || common.AddressEqual(ms, mo) != r.Ok || self.Equal(mo) != r.Ok {
+				return input, &fail{true, "equal:" + r.With, fmt.Sprintf("Equal(%v, %v) = %v / %v / %v, spec says %v", self, other, got, other.Equal(self), common.AddressEqual(ms, mo), r.Ok)}
+			}
+			if self != nil && other != nil && bytes.Equal(self.Bytes(), other.Bytes()) != r.Ok {
+				return input, &fail{true, "equal:bytes", fmt.Sprintf("Equal(%v, %v) = %v but byte forms %x / %x", self, other, got, self.Bytes(), other.Bytes())}
+			}
+		case "codec":
+			want := []byte{}
+			for _, e := range r.Stream {
+				if e.T == "h" {
+					want = append(want, byte(e.V))
+				} else {
+					want = append(want, cur.Bytes()[:e.V]...)
+				}
+			}
+			enc, err := codec.BC.MarshalToBytes(cur) // cur may be a nil *Address
+			if err != nil || !bytes.Equal(enc, want) {
+				return input, &fail{true, "codec:bytes", fmt.Sprintf("codec form of %v is %x (%v), spec says %x", cur, enc, err, want)}
+			}
+			back := common.MustNewAddress(append([]byte{1}, make([]byte, 20)...)) // must be overwritten or set to nil
+			_, err = codec.BC.UnmarshalFromBytes(enc, &back)
+			if err != nil || (back == nil) != r.Nil || (back != nil && *back != *cur) {
+				return input, &fail{true, "codec:roundtrip", fmt.Sprintf("codec form %x decodes as %v (%v), encoded %v", enc, back, err, cur)}
+			}
+			if r.Nil {
+				if common.BytesOfAddress(nil) != nil {
+					return input, &fail{true, "codec:bytesof", "BytesOfAddress(nil) is not nil"}
+				}
+				if a, err := common.BytesToAddress([]byte{}); a != nil || err != nil {
+					return input, &fail{true, "codec:bytestoaddress", fmt.Sprintf("BytesToAddress(empty) = %v, %v", a, err)}
+				}
+			} else if a, err := common.BytesToAddress(cur.Bytes()); err != nil || !cur.Equal(a) {
+				return input, &fail{true, "codec:bytestoaddress", fmt.Sprintf("BytesToAddress(%x) = %v, %v", cur.Bytes(), a, err)}
+			}
 		default:
 			return input, &fail{false, "model:op", "unknown op " + r.Op}
 		}
@@ -266,9 +348,12 @@ func TestReplay(t *testing.T) {
 		id := fmt.Sprintf("b%d", idx)
 		var sig string
 		var n int
-		if steps[0].Op == "frombytes" {
+		if steps[0].Op == "frombytes" || steps[0].Op == "new" {
 			n = len(steps[0].Bytes)
-			sig = fmt.Sprintf("B:%v", steps[0].Bytes)
+			sig = fmt.Sprintf("%s%v:%v", steps[0].Op, steps[0].Contract, steps[0].Bytes)
+		} else if steps[0].Op == "equal" {
+			n = 1
+			sig = "N"
 		} else {
 			n = len(steps[0].Text)
 			sig = "S:" + strings.Join(steps[0].Text, "")
